@@ -28,6 +28,7 @@ type DUnit struct {
 	Stops   []int
 	Arcs    [][3]int // a, b, direct
 	Members []int
+	Loose   bool // plan-all without the same-vehicle requirement
 }
 
 func derive(c *Case) *Derived {
@@ -109,6 +110,21 @@ func derive(c *Case) *Derived {
 			if len(members) > 1 {
 				d.units = append(d.units, DUnit{Kind: "all", Members: members})
 			}
+		}
+	}
+	// loose groups (added through the model API by buildCase): plan-all, any vehicles
+	for _, g := range c.Loose {
+		seen := map[int]bool{}
+		var members []int
+		for _, s := range g {
+			u := d.stopUnit[s]
+			if !seen[u] {
+				seen[u] = true
+				members = append(members, u)
+			}
+		}
+		if len(members) > 1 {
+			d.units = append(d.units, DUnit{Kind: "all", Members: members, Loose: true})
 		}
 	}
 	d.parent = make([]int, len(d.units))
@@ -383,7 +399,11 @@ func (d *Derived) writeInst(o *Out) {
 			}
 			emit("inst unit %d stops %s %s %s", i, csvI(u.Stops), arcs, par)
 		} else {
-			emit("inst unit %d %s %s - %s", i, u.Kind, csvI(u.Members), par)
+			kind := u.Kind
+			if u.Loose {
+				kind = "allloose"
+			}
+			emit("inst unit %d %s %s - %s", i, kind, csvI(u.Members), par)
 		}
 	}
 	emit("inst end")
